@@ -971,7 +971,7 @@ class Twist3(SMTwist):
             # return Twist(left.S * right)
             return Twist3(left.binop(right, lambda x, y: x * y))
         else:
-            raise ValueError('twist *, incorrect right operand')
+            return NotImplemented
 
 
     def __rmul__(right, left):  # lgtm[py/not-named-self] pylint: disable=no-self-argument
